@@ -543,7 +543,8 @@ func ruleBinPadding(r *Run) {
 	})
 	padded := uses["StdEncoding"] || uses["URLEncoding"]
 	raw := uses["RawStdEncoding"] || uses["RawURLEncoding"] || (uses["WithPadding"] && uses["NoPadding"])
-	strips := (uses["TrimRight"] || uses["TrimSuffix"] || uses["TrimRightFunc"]) && raw
+	// stripping must remove ALL padding characters ("==" is legal padding): TrimRight does, TrimSuffix removes only one "="
+	strips := (uses["TrimRight"] || uses["TrimRightFunc"]) && raw
 	r.check((padded && raw) || strips, "decodeBinHeader/padded-and-unpadded", fd.Pos(), "reaches a padded and an unpadded decoder",
 		"only one base64 padding variant is ever used: '-bin' header values in the other form (gRPC allows both) fail to decode and are dropped")
 }
